@@ -104,11 +104,12 @@ type ContractSet struct {
 	Axioms  []*Axiom
 	Rules   []*CallRule
 	Frames  []*FrameRule
+	ChanLinks map[string]string // "T.field" -> ghost field: non-blocking receive succeeds iff ghost set
 	Files   []string
 }
 
 func newContractSet() *ContractSet {
-	return &ContractSet{Funcs: map[string]*Contract{}, Deps: map[string]*Contract{}, Pures: map[string]*PureFunc{}, Ghosts: map[string]*GhostDecl{}}
+	return &ContractSet{Funcs: map[string]*Contract{}, Deps: map[string]*Contract{}, Pures: map[string]*PureFunc{}, Ghosts: map[string]*GhostDecl{}, ChanLinks: map[string]string{}}
 }
 
 var reLabel = regexp.MustCompile(`^\[([A-Za-z0-9_.\-]+)\]\s*`)
@@ -144,6 +145,7 @@ func (cs *ContractSet) parseFile(path, pkg string) error {
 	var curRule *CallRule
 	var lastClause *Clause
 	var fileProps []string
+	var lastFrame *FrameRule
 	lineNo := 0
 	fail := func(format string, a ...any) error {
 		return fmt.Errorf("%s:%d: %s", path, lineNo, fmt.Sprintf(format, a...))
@@ -290,7 +292,7 @@ func (cs *ContractSet) parseFile(path, pkg string) error {
 			axc := ax
 			defer func() { axc.E = c.E; axc.Src = c.Src }()
 			cs.Axioms = append(cs.Axioms, ax)
-			cur, curRule = nil, nil
+			cur, curRule, lastFrame = nil, nil, nil
 		case "callrule":
 			// callrule name in caller-patterns
 			name, callers, ok := strings.Cut(rest, " in ")
@@ -311,6 +313,12 @@ func (cs *ContractSet) parseFile(path, pkg string) error {
 				return fail("except outside callrule")
 			}
 			curRule.Except = append(curRule.Except, splitList(rest)...)
+		case "chanlink":
+			f := strings.Fields(rest)
+			if len(f) != 2 {
+				return fail("chanlink T.field ghostfield")
+			}
+			cs.ChanLinks[f[0]] = f[1]
 		case "frame":
 			// frame effect only in f1, f2
 			eff, only, ok := strings.Cut(rest, " only in ")
@@ -320,12 +328,16 @@ func (cs *ContractSet) parseFile(path, pkg string) error {
 			fr := &FrameRule{Pkg: pkg, Effect: strings.TrimSpace(eff), OnlyIn: splitList(only), File: path, Line: lineNo}
 			fr.Props = append(fr.Props, fileProps...)
 			cs.Frames = append(cs.Frames, fr)
+			lastFrame = fr
+			cur, curRule = nil, nil
 		case "property":
 			ps := strings.Fields(strings.ReplaceAll(rest, ",", " "))
 			if cur != nil {
 				cur.Props = append(cur.Props, ps...)
 			} else if curRule != nil {
 				curRule.Props = append(curRule.Props, ps...)
+			} else if lastFrame != nil {
+				lastFrame.Props = append(lastFrame.Props, ps...)
 			} else if n := len(cs.Axioms); n > 0 {
 				cs.Axioms[n-1].Props = append(cs.Axioms[n-1].Props, ps...)
 			} else {
